@@ -18,6 +18,12 @@ def run(tier, seed):
     ok, log = core.build_vrun()
     specs = [mapspec(rng)[0] for _ in range(8 if tier == "quick" else 30)]
     facts = sketchcheck.learn_specs(pid, specs) if ok else {}
+    # siblings: same kind and gamma, another index offset (one of the two often exactly 0) -- a different mapping
+    sib = {}
+    for sp, f in list(facts.items()):
+        offs = [o for o in (0.0, 7.0, 1e-3, -2.5, f["off"] + 1.0) if abs(o - f["off"]) > 1e-6 * max(1.0, abs(f["off"]))]
+        sib[sp] = ["%s:g:%s:%s" % (f["kind"], f2h(f["gamma"]), f2h(o)) for o in offs]
+    sibfacts = sketchcheck.learn_specs(pid + "/..", []) if False else {}
     nenc = 90 if tier == "quick" else 1500
     # ---- phase 1: valid encodings from the implementation (3 producer kinds x 2 variants) and from the documented grammar
     p1 = []
@@ -75,6 +81,13 @@ def run(tier, seed):
         others = [s for s in sorted(facts) if facts[s]["kind"] != facts[spec]["kind"] or abs(facts[s]["acc"] - facts[spec]["acc"]) > 2e-3 * max(facts[s]["acc"], facts[spec]["acc"])]
         if others and not meta["omit"]:
             b.emit("kdec k e %s %s%s" % (kind, rng.choice(others), ex), "err mapping-mismatch")
+        if not meta["omit"] and not meta.get("grammar"):
+            for sp2 in rng.sample(sib[spec], min(2, len(sib[spec]))):
+                b.emit("mnew sm " + sp2, "ok")
+                b.emit("kdec k e %s %s%s" % (kind, sp2, ex), "err mapping-mismatch")      # same gamma, another offset: still a different mapping
+                # and the other way round: a receiver built with the stream's mapping refuses a stream carrying the sibling
+                b.emit("knew z %s sparse sparse%s" % (sp2, ex), "ok"); b.emit("kadd z %s" % f2h(1.0), "ok"); b.emit("kenc ez z 0", "ok")
+                b.emit("kdec k ez %s %s%s" % (kind, spec, ex), "err mapping-mismatch")
         if meta["omit"]:
             b.emit("kdec k e %s nil%s" % (kind, ex), "err missing-mapping")
         builders.append(b)
